@@ -333,6 +333,35 @@ theorem load_rejects_signature (m : Nat) (sig sig' csig csig' : List Int) (g : G
     (csig' ≠ csig → loadGraph m sig csig (storeGraph m sig csig' g) = .error .ctrlSignature) :=
   ⟨loadGraph_rejects_signature m sig sig' csig g, loadGraph_rejects_ctrl_signature m sig csig csig' g⟩
 
+/-- the archive header carries two signatures (state space, control space; the latter empty for geometric archives) and
+`load` accepts **only if both match**: an archive stored for (`sig'`, `csig'`) that loads successfully under
+(`sig`, `csig`) has `sig' = sig` and `csig' = csig`; otherwise the error names the first mismatch -/
+theorem load_rejects_signature_mismatch (m : Nat) (sig sig' csig csig' : List Int) (g : Graph) :
+    ((∃ g', loadGraph m sig csig (storeGraph m sig' csig' g) = .ok g') → sig' = sig ∧ csig' = csig) ∧
+    (sig' ≠ sig → loadGraph m sig csig (storeGraph m sig' csig' g) = .error .signature) ∧
+    (sig' = sig → csig' ≠ csig → loadGraph m sig csig (storeGraph m sig' csig' g) = .error .ctrlSignature) := by
+  have h1 : sig' ≠ sig → loadGraph m sig csig (storeGraph m sig' csig' g) = .error .signature := by
+    intro hs; simp [loadGraph, storeGraph, hs]
+  have h2 : sig' = sig → csig' ≠ csig → loadGraph m sig csig (storeGraph m sig' csig' g) = .error .ctrlSignature := by
+    intro hs hc; simp [loadGraph, storeGraph, hs, hc]
+  refine ⟨?_, h1, h2⟩
+  rintro ⟨g', hg⟩
+  by_cases hs : sig' = sig
+  · by_cases hc : csig' = csig
+    · exact ⟨hs, hc⟩
+    · rw [h2 hs hc] at hg; cases hg
+  · rw [h1 hs] at hg; cases hg
+
+/-- control spaces of another dimension, discrete, or compound (even a compound of the same single component) have a
+different `computeSignature`, so their archives are mutually rejected although the state space is the same -/
+example : ctrlSignature (.real 3) ≠ ctrlSignature (.real 2) ∧ ctrlSignature (.real 1) ≠ ctrlSignature .discrete ∧
+    ctrlSignature (.real 3) ≠ ctrlSignature (.compound [.real 3]) ∧
+    ctrlSignature (.real 3) ≠ ctrlSignature (.compound [.real 2, .discrete]) := by decide
+
+example : loadGraph markerPDC [2, 1, 2] (ctrlSignature (.real 2))
+    (storeGraph markerPDC [2, 1, 2] (ctrlSignature (.real 3)) (({} : Graph).addVertex ⟨0, [1]⟩)) = .error .ctrlSignature := by
+  rfl
+
 /-- every proper prefix of a stored graph (record granularity) makes `load` fail -/
 theorem load_truncated_errors (m : Nat) (sig csig : List Int) (g : Graph) (k : Nat)
     (hk : k < (storeGraph m sig csig g).length) :
